@@ -7,10 +7,11 @@
     case), [atoi] / [parse_float] (bytesconv, property C03) and [fmt_g] (fmt's
     %v of a float64).  What is assumed of them is part of [WFres]
     ([bench_ok]): the printed iteration count and every printed measurement
-    are single fields that the number parsers read back exactly. *)
+    are single fields that the number parsers read back exactly.  [is_space 10 = true]
+    (LF is white space) is used to derive that keys contain no LF. *)
 From Perf Require Import Base.Bytes Base.B64 Base.Utf8 Base.Unicode
   Model.Name Model.Extract Model.Units Model.Reader Model.Files Model.Writer
-  Proofs.ReaderSlots Proofs.Reader Proofs.WriterMap Proofs.WriterLines Proofs.Writer.
+  Proofs.ReaderSlots Proofs.Reader Proofs.WriterMap Proofs.WriterLines Proofs.WriterClean Proofs.Writer.
 Local Open Scope N_scope.
 
 Definition colon_ok (is_space is_upper : N -> bool) : Prop := is_space 58 = false /\ is_upper 58 = false.
@@ -29,39 +30,62 @@ Theorem C01_writer_belief_invariant : forall w R m,
 Proof. exact cfg_part_ok. Qed.
 Print Assumptions C01_writer_belief_invariant.
 
-(** every finite sequence of well-formed results (any configurations, so any
-    history of additions, changes, deletions, re-additions and file<->internal
-    flips between consecutive results), written by the writer and read back by
-    the reader from ANY earlier reader state: the same results in order, with
-    the same name, iteration count, measurements as written, and exactly the
-    file configuration as a map.
-    Premise on the output: its lines contain no LF, do not end in CR and stay
-    under the scanner's 64 KiB limit ([line_clean]; see C01_cr_refuted). *)
+(** [WFhist seen recs]: a stream of results and unit-metadata records the format
+    can carry.  Per result ([WFres]): distinct keys; every key recognised by
+    parseKeyValueLine; file values non-empty, not starting with a blank, no LF,
+    not ending in CR; name without white space; >= 1 measurement; the printed
+    iteration count and measurements are single fields that atoi / atof read
+    back exactly; each line it can cause stays under the scanner's 64 KiB limit
+    (size clauses on the key, key+value and benchmark line).  Per metadata
+    record ([WFunit]): unit = Tidy of the written unit, written unit and
+    key=value are fields, key non-empty without '='; its (unit, key) is new
+    with respect to [seen] and to the earlier records of the stream.
+    All conditions are on the records, none on the output. *)
+
+(** every such stream (hence every history of configuration additions, changes,
+    deletions, re-additions and file<->internal flips between consecutive
+    results), written by the writer and read back by the reader from ANY earlier
+    reader state whose unit table has the keys [seen]: the same results and
+    unit metadata in order - name, iteration count, measurements as written,
+    exactly the file configuration as a map; metadata records equal. *)
 Theorem C01_roundtrip_history :
-  forall is_space is_lower is_upper atoi parse_float fmt_g, colon_ok is_space is_upper ->
-  forall (rs : list result) (st : rstate) (fname : bytes),
-  Forall (WFres is_space is_lower is_upper atoi parse_float fmt_g) rs ->
-  Forall line_clean (map (render fmt_g) (fst (write_all w_init (map RRes rs)))) ->
+  forall is_space is_lower is_upper atoi parse_float fmt_g,
+  colon_ok is_space is_upper -> is_space 10 = true ->
+  forall (recs : list record) (st : rstate) (fname : bytes),
+  WFhist is_space is_lower is_upper atoi parse_float fmt_g (ukeys (rs_units st)) recs ->
   exists out st',
-    read_file is_space is_lower is_upper atoi parse_float st fname [] (emit fmt_g (map RRes rs)) = (out, None, st') /\
-    Forall2 rt_equiv out rs.
+    read_file is_space is_lower is_upper atoi parse_float st fname [] (emit fmt_g recs) = (out, None, st') /\
+    Forall2 rt_equiv out recs.
 Proof. exact roundtrip_history. Qed.
 Print Assumptions C01_roundtrip_history.
 
 (** internal configuration is never read back as file configuration *)
 Theorem C01_internal_never_reappears :
-  forall is_space is_lower is_upper atoi parse_float fmt_g, colon_ok is_space is_upper ->
-  forall (rs : list result) (st : rstate) (fname : bytes),
-  Forall (WFres is_space is_lower is_upper atoi parse_float fmt_g) rs ->
-  Forall line_clean (map (render fmt_g) (fst (write_all w_init (map RRes rs)))) ->
+  forall is_space is_lower is_upper atoi parse_float fmt_g,
+  colon_ok is_space is_upper -> is_space 10 = true ->
+  forall (recs : list record) (st : rstate) (fname : bytes),
+  WFhist is_space is_lower is_upper atoi parse_float fmt_g (ukeys (rs_units st)) recs ->
   exists out st',
-    read_file is_space is_lower is_upper atoi parse_float st fname [] (emit fmt_g (map RRes rs)) = (out, None, st') /\
-    Forall2 (fun o r => match o with
-                        | RRes r' => forall c, In c (r_cfg r) -> c_file c = false ->
-                                               cfg_lookup (r_cfg r') (c_key c) = None
-                        | _ => False end) out rs.
+    read_file is_space is_lower is_upper atoi parse_float st fname [] (emit fmt_g recs) = (out, None, st') /\
+    Forall2 (fun o w => match o, w with
+                        | RRes r', RRes r => forall c, In c (r_cfg r) -> c_file c = false ->
+                                                       cfg_lookup (r_cfg r') (c_key c) = None
+                        | RUnit _, RUnit _ => True
+                        | _, _ => False end) out recs.
 Proof. exact internal_never_reappears. Qed.
 Print Assumptions C01_internal_never_reappears.
+
+(** the lines written for a well-formed stream contain no LF, do not end in CR
+    and are short: derived from the records *)
+Theorem C01_written_lines_clean :
+  forall is_space is_lower is_upper atoi parse_float fmt_g,
+  colon_ok is_space is_upper -> is_space 10 = true ->
+  forall recs seen w,
+  WFhist is_space is_lower is_upper atoi parse_float fmt_g seen recs ->
+  keys_ok is_space is_lower is_upper (w_have w) ->
+  Forall line_clean (map (render fmt_g) (fst (write_all w recs))).
+Proof. exact written_lines_clean. Qed.
+Print Assumptions C01_written_lines_clean.
 
 (** the writer's bytes split back into exactly the lines it wrote *)
 Theorem C01_split_join_lines : forall ls, Forall line_clean ls -> split_lines (join_lines ls) = map Line ls.
@@ -78,23 +102,57 @@ Definition ex_res (cfgs : list cfg) : result := mkResult cfgs (bs "X") 1 [ex_val
 Example C01_colon_ok : colon_ok go_is_space go_is_upper.
 Proof. split; reflexivity. Qed.
 
-(** non-vacuity: a file key, an internal key, a rescaled measurement *)
-Example C01_WFres_example :
-  WFres go_is_space go_is_lower go_is_upper ex_atoi ex_pf ex_fmt
-        (ex_res [mkCfg (bs "goos") (bs "linux") true; mkCfg (bs "note") (bs "x") false]).
+Definition ex_unit : umetap := mkUmetap (mkUmeta (bs "sec/op") (bs "better") (bs "ns/op") (bs "lower")) [] 0.
+
+(** non-vacuity: a file key, an internal key, a rescaled measurement, a unit-metadata record *)
+Example C01_WFhist_example :
+  WFhist go_is_space go_is_lower go_is_upper ex_atoi ex_pf ex_fmt []
+    [RRes (ex_res [mkCfg (bs "goos") (bs "linux") true; mkCfg (bs "note") (bs "x") false]); RUnit ex_unit].
 Proof.
-  split.
+  assert (Hs : forall l : bytes, (N.of_nat (length l) <? max_token) = true -> short l)
+    by (intros l H; now apply N.ltb_lt).
+  apply WFh_res; [|apply WFh_unit; [| |apply WFh_nil]].
   - split; [|split].
-    + repeat constructor; cbn; intuition discriminate.
-    + repeat constructor; cbn; repeat split; try discriminate; reflexivity.
-    + repeat constructor; cbn; intros; try discriminate; split; discriminate.
-  - split; [|split; [|split; [|split]]].
-    + vm_compute. repeat constructor.
-    + vm_compute. repeat constructor; try discriminate.
-    + reflexivity.
-    + repeat constructor.
-    + discriminate.
+    + split; [|split].
+      * repeat constructor; cbn; intuition discriminate.
+      * constructor; [|constructor; [|constructor]];
+          (split; [cbn; repeat split; try discriminate; vm_compute; reflexivity|apply Hs; reflexivity]).
+      * constructor; [|constructor; [|constructor]]; cbn [c_file c_key c_val]; [intros _|discriminate].
+        split; [cbn; split; discriminate|].
+        split; [|apply Hs; reflexivity].
+        split; [intros H; cbn in H; intuition discriminate|].
+        apply (no_cr_end_app [] (bs "linux")); [discriminate|cbn; intuition discriminate].
+    + split; [|split; [|split; [|split]]].
+      * vm_compute. repeat constructor.
+      * vm_compute. repeat constructor; try discriminate.
+      * reflexivity.
+      * repeat constructor.
+      * discriminate.
+    + apply Hs. reflexivity.
+  - split.
+    + split; [reflexivity|]. split; [split; [discriminate|vm_compute; repeat constructor]|].
+      split; [discriminate|]. split; [cbn; intuition discriminate|].
+      split; [discriminate|vm_compute; repeat constructor].
+    + apply Hs. reflexivity.
+  - cbn. tauto.
 Qed.
+
+(** the writer before commit 4949ccf: a written file key that turned internal
+    printed nothing and so reappeared as file configuration on reading *)
+Theorem C01_flip_refuted :
+  exists r1 r2 c,
+    In c (r_cfg r2) /\ c_file c = false /\
+    let '(out, _, _) := read_file go_is_space go_is_lower go_is_upper ex_atoi ex_pf rs_empty (bs "f") []
+                          (emit_old ex_fmt [r1; r2]) in
+    match out with
+    | [_; RRes r'] => cfg_lookup (r_cfg r') (c_key c) <> None
+    | _ => False
+    end.
+Proof.
+  exists (ex_res [mkCfg (bs "k") (bs "v") true]), (ex_res [mkCfg (bs "k") (bs "v") false]), (mkCfg (bs "k") (bs "v") false).
+  split; [now left|]. split; [reflexivity|]. vm_compute. discriminate.
+Qed.
+Print Assumptions C01_flip_refuted.
 
 (** the expressiveness limit of the format (known finding C01_value_ends_with_CR):
     a file value ending in CR comes back without it *)
